@@ -1003,6 +1003,9 @@ func (t *Template) parseCatch() *catchNode {
 	peek := t.peekNonSpace()
 	if peek.typ != itemRightDelim {
 		_errVar := t.term()
+		if _errVar == nil {
+			t.unexpected(t.next(), "catch", "identifier")
+		}
 		if typ := _errVar.Type(); typ != NodeIdentifier {
 			t.errorf("unexpected node type '%s' in catch", typ)
 		}
